@@ -43,6 +43,7 @@ import (
 
 // stubs interpreted by the executor
 func implies(a, b bool) bool { return !a || b }
+func same[T any](a, b T) bool { return false } // logical equality, also for non-comparable V
 func specExpiresAt[K comparable, V any](n node.Node[K, V]) int64 { return n.ExpiresAt() }
 func specFreq[K comparable](s *sketch[K], k K) uint64              { return s.frequency(k) }
 
@@ -71,6 +72,33 @@ func _ens_setExpiresAfterRead_keep[K comparable, V any](c *cache[K, V], n node.N
 // the weaker statement the *current* code does satisfy (exact when there is no overflow)
 func _ens_setExpiresAfterRead_exactNoOvf[K comparable, V any](c *cache[K, V], n node.Node[K, V], nowNano int64, expiresAfter int64, old0 int64) bool {
 	return implies(expiresAfter > 0 && expiresAfter <= math.MaxInt64-nowNano, specExpiresAt(n) == nowNano+expiresAfter)
+}
+
+// ---- (*cache).set   (table model: the callback passed to hashmap.Compute is inlined at the linearization point)
+func ghostPresent[K comparable, V any](c *cache[K, V]) bool              { return false } // M[key] live at the LP
+func ghostSeen[K comparable, V any](c *cache[K, V]) node.Node[K, V]      { return nil }   // M[key] at the LP
+func ghostInstalled[K comparable, V any](c *cache[K, V]) node.Node[K, V] { return nil }   // M'[key]
+func ghostAfterWrites[K comparable, V any](c *cache[K, V]) int           { return 0 }
+func specValue[K comparable, V any](n node.Node[K, V]) V                 { return n.Value() }
+
+func _req_set[K comparable, V any](c *cache[K, V], key K, value V, onlyIfAbsent bool) bool { return c.withExpiration }
+func _pre_set[K comparable, V any](c *cache[K, V], key K, value V, onlyIfAbsent bool) int64 { return 0 }
+// [C03:not-present] / [C01:ret-absent]: an expired-but-unswept or missing entry is reported as absent
+func _ens_set_retAbsent[K comparable, V any](c *cache[K, V], key K, value V, onlyIfAbsent bool, r0 V, r1 bool, old0 int64) bool {
+	return implies(!ghostPresent(c), r1 && same(r0, value))
+}
+// [C01:ret-present]
+func _ens_set_retPresent[K comparable, V any](c *cache[K, V], key K, value V, onlyIfAbsent bool, r0 V, r1 bool, old0 int64) bool {
+	return implies(ghostPresent(c), !r1 && same(r0, specValue(ghostSeen(c))))
+}
+// [C05/C06:task-once]: the policy is told about the write exactly when the table was changed
+func _ens_set_afterWriteIffInstalled[K comparable, V any](c *cache[K, V], key K, value V, onlyIfAbsent bool, r0 V, r1 bool, old0 int64) bool {
+	return (ghostAfterWrites(c) == 1) == (ghostInstalled(c) != ghostSeen(c)) && ghostAfterWrites(c) <= 1
+}
+// [C01:view-after]
+func _ens_set_installs[K comparable, V any](c *cache[K, V], key K, value V, onlyIfAbsent bool, r0 V, r1 bool, old0 int64) bool {
+	return implies(!onlyIfAbsent || !ghostPresent(c), ghostInstalled(c) != nil && same(specValue(ghostInstalled(c)), value)) &&
+		implies(onlyIfAbsent && ghostPresent(c), ghostInstalled(c) == ghostSeen(c))
 }
 
 // ---- (*policy).admit
@@ -106,19 +134,24 @@ type val struct {
 	l     loc
 	tuple []val
 	fn    *ssa.Function // known function value
+	bind  []val         // closure bindings
 }
 
 type state struct {
 	pc    []string
 	heap  map[string]string // heap key -> array term
 	cells map[int]val
+	ghost map[string]string
 	x     *ctx
 }
 
 func (s *state) clone() *state {
-	n := &state{pc: append([]string(nil), s.pc...), heap: map[string]string{}, cells: map[int]val{}, x: s.x}
+	n := &state{pc: append([]string(nil), s.pc...), heap: map[string]string{}, cells: map[int]val{}, ghost: map[string]string{}, x: s.x}
 	for k, v := range s.heap {
 		n.heap[k] = v
+	}
+	for k, v := range s.ghost {
+		n.ghost[k] = v
 	}
 	for k, v := range s.cells {
 		n.cells[k] = v
@@ -135,6 +168,7 @@ type ctx struct {
 	prog    *ssa.Program
 	pkg     *ssa.Package
 	npaths  int
+	itf     bool // interference mode: shared mutable node fields are havocked after a critical section
 }
 
 func (x *ctx) declare(name, sortS string) {
@@ -169,6 +203,20 @@ func (x *ctx) sortOf(t types.Type) (string, term) {
 	}
 	// opaque struct values etc.
 	return "(_ BitVec 64)", term{w: 64, k: "ref"}
+}
+
+func (x *ctx) zero(t types.Type) term {
+	s, tm := x.sortOf(t)
+	switch {
+	case tm.k == "bool":
+		tm.s = "false"
+	case tm.w > 0:
+		tm.s = bvlit(0, tm.w)
+	default:
+		tm.s = "zero_" + tm.k
+		x.declare(tm.s, s)
+	}
+	return tm
 }
 
 func (x *ctx) freshVar(prefix string, t types.Type) term {
@@ -306,7 +354,7 @@ func (x *ctx) execFrom(st *state, fr *frame, b *ssa.BasicBlock, idx int, prev *s
 		case *ssa.Alloc:
 			x.fresh++
 			id := x.fresh
-			fr.regs[in] = val{isPtr: true, l: loc{cell: id}}
+			fr.regs[in] = val{isPtr: true, l: loc{cell: id, typ: in.Type().Underlying().(*types.Pointer).Elem()}}
 		case *ssa.Store:
 			p := x.get(fr, st, in.Addr)
 			v := x.get(fr, st, in.Val)
@@ -316,6 +364,12 @@ func (x *ctx) execFrom(st *state, fr *frame, b *ssa.BasicBlock, idx int, prev *s
 				arr := x.heapArr(st, p.l.field, p.l.typ)
 				st.heap[p.l.field] = fmt.Sprintf("(store %s %s %s)", arr, p.l.base, v.t.s)
 			}
+		case *ssa.MakeClosure:
+			v := val{fn: in.Fn.(*ssa.Function)}
+			for _, b := range in.Bindings {
+				v.bind = append(v.bind, x.get(fr, st, b))
+			}
+			fr.regs[in] = v
 		case *ssa.Extract:
 			fr.regs[in] = x.get(fr, st, in.Tuple).tuple[in.Index]
 		case *ssa.MakeInterface, *ssa.ChangeInterface:
@@ -388,7 +442,10 @@ func (x *ctx) load(st *state, p val, t types.Type) val {
 		panic("load of non-pointer")
 	}
 	if p.l.cell > 0 {
-		return st.cells[p.l.cell]
+		if v, ok := st.cells[p.l.cell]; ok {
+			return v
+		}
+		return val{t: x.zero(p.l.typ)}
 	}
 	arr := x.heapArr(st, p.l.field, p.l.typ)
 	_, tm := x.sortOf(p.l.typ)
@@ -475,6 +532,17 @@ func (x *ctx) call(st *state, fr *frame, in *ssa.Call, depth int) []outcome {
 		a := args()
 		exp := x.heapArr(st, "node_expiresAt", types.Typ[types.Int64])
 		switch c.Method.Name() {
+		case "NowNano": // A-clock: non-negative
+			t := x.freshVar("now", types.Typ[types.Int64])
+			st.pc = append(st.pc, fmt.Sprintf("(bvsge %s %s)", t.s, bvlit(0, 64)))
+			st.ghost["now"] = t.s
+			fr.regs[in] = val{t: t}
+		case "Value":
+			vs, vt := x.sortOf(in.Type())
+			_ = vs
+			arr := x.heapArr(st, "node_value", in.Type())
+			vt.s = fmt.Sprintf("(select %s %s)", arr, recv)
+			fr.regs[in] = val{t: vt}
 		case "ExpiresAt":
 			fr.regs[in] = val{t: term{s: fmt.Sprintf("(select %s %s)", exp, recv), w: 64, k: "bv"}}
 		case "HasExpired":
@@ -499,9 +567,87 @@ func (x *ctx) call(st *state, fr *frame, in *ssa.Call, depth int) []outcome {
 		callee = o
 	}
 	a := args()
+	g := func(key, dflt string) string {
+		if v, ok := st.ghost[key]; ok {
+			return v
+		}
+		return dflt
+	}
 	switch name {
+	case "ghostPresent":
+		fr.regs[in] = val{t: term{s: g("present", "false"), k: "bool"}}
+		return nil
+	case "ghostSeen":
+		fr.regs[in] = val{t: term{s: g("seen", bvlit(0, 64)), w: 64, k: "ref"}}
+		return nil
+	case "ghostInstalled":
+		fr.regs[in] = val{t: term{s: g("installed", bvlit(0, 64)), w: 64, k: "ref"}}
+		return nil
+	case "ghostAfterWrites":
+		fr.regs[in] = val{t: term{s: g("afterWrites", bvlit(0, 64)), w: 64, k: "bv"}}
+		return nil
+	case "specValue":
+		arr := x.heapArr(st, "node_value", in.Type())
+		_, vt := x.sortOf(in.Type())
+		vt.s = fmt.Sprintf("(select %s %s)", arr, a[0].t.s)
+		fr.regs[in] = val{t: vt}
+		return nil
+	case "Compute": // assumed contract A-table: callback exactly once on M[key], result stored
+		ks, _ := x.sortOf(c.Args[1].Type())
+		if _, ok := st.heap["M"]; !ok {
+			x.declare("M", fmt.Sprintf("(Array %s (_ BitVec 64))", ks))
+			st.heap["M"] = "M"
+		}
+		cur := fmt.Sprintf("(select %s %s)", st.heap["M"], a[1].t.s)
+		exp := x.heapArr(st, "node_expiresAt", types.Typ[types.Int64])
+		st.ghost["seen"] = cur
+		st.ghost["present"] = fmt.Sprintf("(and (distinct %s %s) (not (bvsle (select %s %s) %s)))", cur, bvlit(0, 64), exp, cur, g("now", bvlit(0, 64)))
+		cl := a[2]
+		nfr := &frame{fn: cl.fn, regs: map[ssa.Value]val{}}
+		for i, fv := range cl.fn.FreeVars {
+			nfr.regs[fv] = cl.bind[i]
+		}
+		nfr.regs[cl.fn.Params[0]] = val{t: term{s: cur, w: 64, k: "ref"}}
+		outs := x.execFrom(st, nfr, cl.fn.Blocks[0], 0, nil, depth+1)
+		for i := range outs {
+			o := &outs[i]
+			o.st.heap["M"] = fmt.Sprintf("(store %s %s %s)", o.st.heap["M"], a[1].t.s, o.ret.t.s)
+			o.st.ghost["installed"] = o.ret.t.s
+			if x.itf { // other goroutines may move deadlines once the bucket lock is released
+				h := x.freshVar("H_node_expiresAt_itf", types.NewPointer(types.Typ[types.Int64]))
+				_ = h
+				x.fresh++
+				name := fmt.Sprintf("H_node_expiresAt!itf%d", x.fresh)
+				x.declare(name, "(Array (_ BitVec 64) (_ BitVec 64))")
+				o.st.heap["node_expiresAt"] = name
+			}
+		}
+		return outs
+	case "atomicSet": // contract: fresh alive node holding (key, value)
+		n := x.freshVar("newnode", c.Args[3].Type())
+		st.pc = append(st.pc, fmt.Sprintf("(distinct %s %s)", n.s, bvlit(0, 64)), fmt.Sprintf("(distinct %s %s)", n.s, a[3].t.s))
+		arr := x.heapArr(st, "node_value", c.Args[2].Type())
+		st.heap["node_value"] = fmt.Sprintf("(store %s %s %s)", arr, n.s, a[2].t.s)
+		fr.regs[in] = val{t: n}
+		return nil
+	case "calcExpiresAtAfterRead": // modifies expiresAt(n)
+		exp := x.heapArr(st, "node_expiresAt", types.Typ[types.Int64])
+		nv := x.freshVar("newdeadline", types.Typ[types.Int64])
+		st.heap["node_expiresAt"] = fmt.Sprintf("(store %s %s %s)", exp, a[1].t.s, nv.s)
+		fr.regs[in] = val{}
+		return nil
+	case "afterWrite":
+		st.ghost["afterWrites"] = fmt.Sprintf("(bvadd %s %s)", g("afterWrites", bvlit(0, 64)), bvlit(1, 64))
+		fr.regs[in] = val{}
+		return nil
+	case "afterRead":
+		fr.regs[in] = val{}
+		return nil
 	case "implies":
 		fr.regs[in] = val{t: term{s: fmt.Sprintf("(=> %s %s)", a[0].t.s, a[1].t.s), k: "bool"}}
+		return nil
+	case "same":
+		fr.regs[in] = val{t: term{s: fmt.Sprintf("(= %s %s)", a[0].t.s, a[1].t.s), k: "bool"}}
 		return nil
 	case "specExpiresAt":
 		exp := x.heapArr(st, "node_expiresAt", types.Typ[types.Int64])
@@ -557,13 +703,13 @@ func (x *ctx) lookup(name string) *ssa.Function {
 	return nil
 }
 
-func verify(prog *ssa.Program, pkg *ssa.Package, target string, ensures []string) []result {
-	x := &ctx{seen: map[string]bool{}, sorts: map[string]bool{}, prog: prog, pkg: pkg}
+func verify(prog *ssa.Program, pkg *ssa.Package, target string, ensures []string, itf bool) []result {
+	x := &ctx{seen: map[string]bool{}, sorts: map[string]bool{}, prog: prog, pkg: pkg, itf: itf}
 	fn := x.lookup(target)
 	if fn == nil {
 		panic("no function " + target)
 	}
-	st := &state{heap: map[string]string{}, cells: map[int]val{}, x: x}
+	st := &state{heap: map[string]string{}, cells: map[int]val{}, ghost: map[string]string{}, x: x}
 	fr := &frame{fn: fn, regs: map[ssa.Value]val{}}
 	var params []val
 	for _, p := range fn.Params {
@@ -602,6 +748,8 @@ func verify(prog *ssa.Program, pkg *ssa.Package, target string, ensures []string
 			extra := []val{}
 			if fn.Signature.Results().Len() == 1 {
 				extra = append(extra, o.ret)
+			} else {
+				extra = append(extra, o.ret.tuple...)
 			}
 			extra = append(extra, pre)
 			for _, co := range evalClause(o.st, "_ens_"+target+"_"+e, extra...) {
@@ -668,8 +816,17 @@ func main() {
 	prog.Build()
 	fmt.Printf("load+ssa: %d ms\n", time.Since(t0).Milliseconds())
 	var all []result
-	all = append(all, verify(prog, spkgs[0], "setExpiresAfterRead", []string{"exact", "keep", "exactNoOvf"})...)
-	all = append(all, verify(prog, spkgs[0], "admit", []string{"greaterAdmits", "coldNeverAdmitted"})...)
+	all = append(all, verify(prog, spkgs[0], "setExpiresAfterRead", []string{"exact", "keep", "exactNoOvf"}, false)...)
+	all = append(all, verify(prog, spkgs[0], "admit", []string{"greaterAdmits", "coldNeverAdmitted"}, false)...)
+	setE := []string{"retAbsent", "retPresent", "afterWriteIffInstalled", "installs"}
+	for _, r := range verify(prog, spkgs[0], "set", setE, false) {
+		r.name += "[seq]"
+		all = append(all, r)
+	}
+	for _, r := range verify(prog, spkgs[0], "set", setE, true) {
+		r.name += "[itf]"
+		all = append(all, r)
+	}
 	for _, r := range all {
 		fmt.Printf("  %-58s %-28s %4d ms  %s\n", r.name, r.status, r.ms, r.model)
 	}
